@@ -10,42 +10,22 @@ From Verif Require Import Base.Lex SnapRead.Model SnapRead.ModelRead SnapRead.Pr
    |P| + |T| + 2 getData calls without panic and its concatenated output is exactly
    [(k,v) | in_range lo hi k, read_at ts k = Some v], ascending (descending for reverse) — so no
    key is repeated or skipped.  Under key-only the keys are compared (canon).
-   Reverse scans need a real upper bound or a single region at the first call: see the refuted
-   statement below (F08b). *)
+   Reverse scans from the end of the key space (hi = []) are covered for every layout sequence
+   (LocateEndKey("") returns the last region since 0dbaf7e; formerly refuted, F08b). *)
 Theorem C05_scan_complete :
   forall (T : truth) (ts : N) (lo hi : key) (B : nat) (ko rv : bool)
          (lay : nat -> layout) (lk : nat -> list key) (P : list key),
     tsorted T -> (forall i, incl (lay i) P) ->
-    (rv = true -> (forall e, In e T -> fst e <> []) /\ (hi <> [] \/ lay 0%nat = [])) ->
+    (rv = true -> forall e, In e T -> fst e <> []) ->
     exists out,
       scan (length P + length T + 2) B ko ts T lay lk lo hi rv = Done out /\
       map (canon ko) out = map (canon ko) (if rv then rev (expected ts lo hi T) else expected ts lo hi T).
 Proof.
   intros T ts lo hi B ko rv lay lk P HT Hlay Hrv. destruct rv.
-  - destruct (Hrv eq_refl) as [Hnn Hhi]. apply scan_reverse_complete; assumption.
+  - apply scan_reverse_complete; auto.
   - apply scan_forward_complete; assumption.
 Qed.
 Print Assumptions C05_scan_complete.
-
-(* The same statement without the side condition on reverse scans is false for the code as it is:
-   keys a..h in regions split at "c" and "f", IterReverse(nil, nil) returns only b, a
-   (LocateEndKey("") returns the first region).  Known finding F08b. *)
-Theorem C05_reverse_unbounded_refuted :
-  exists (T : truth) (ts : N) (B : nat) (lay : nat -> layout) (lk : nat -> list key) (P : list key),
-    tsorted T /\ (forall e, In e T -> fst e <> []) /\ (forall i, incl (lay i) P) /\
-    ~ exists out,
-        scan (length P + length T + 2) B false ts T lay lk [] [] true = Done out /\
-        map (canon false) out = map (canon false) (rev (expected ts [] [] T)).
-Proof.
-  exists w_truth, 10, 256%nat, (fun _ => w_layout), (fun _ => []), w_layout.
-  split; [exact w_truth_sorted|]. split.
-  - intros e He. unfold w_truth, w_keys8 in He. cbn in He.
-    repeat (destruct He as [<-|He]; [discriminate|]). destruct He.
-  - split; [intros i; apply incl_refl|].
-    intros (out & H1 & H2). destruct reverse_unbounded_witness as [W1 W2].
-    rewrite W1 in H1. inversion H1; subst out. apply W2. rewrite <- H2. reflexivity.
-Qed.
-Print Assumptions C05_reverse_unbounded_refuted.
 
 (* get / batch get / scan / reverse scan all equal read_at on the final truth of the world
    (committed writes plus what the leftover locks of committed transactions will become),
@@ -63,7 +43,7 @@ Theorem C05_paths_agree :
         exists out, scan (length P + length T + 2) B ko ts T lay lk lo hi false = Done out /\
                     map (canon ko) out = map (canon ko) (expected ts lo hi T)) /\
     (tsorted T -> (forall e, In e T -> fst e <> []) ->
-        forall lo hi B ko lay lk P, (forall i, incl (lay i) P) -> (hi <> [] \/ lay 0%nat = []) ->
+        forall lo hi B ko lay lk P, (forall i, incl (lay i) P) ->
         exists out, scan (length P + length T + 2) B ko ts T lay lk lo hi true = Done out /\
                     map (canon ko) out = map (canon ko) (rev (expected ts lo hi T))).
 Proof.
@@ -81,7 +61,7 @@ Proof.
     + intros Hr. destruct (B2 _ _ Hr) as [[]|[Hk Hv]]. split; [apply (group_keys_mem Fin L0 keys k); exact Hk|exact Hv].
     + intros [Hk Hv]. apply B3; [apply (group_keys_mem Fin L0 keys k); exact Hk|exact Hv].
   - intros HT lo hi B ko lay lk P Hlay. apply scan_forward_complete; assumption.
-  - intros HT Hnn lo hi B ko lay lk P Hlay Hhi. apply scan_reverse_complete; assumption.
+  - intros HT Hnn lo hi B ko lay lk P Hlay. apply scan_reverse_complete; assumption.
 Qed.
 Print Assumptions C05_paths_agree.
 
@@ -189,6 +169,12 @@ Example ex_scan_splits :
   scan 12 2 false 10 w_truth (fun i => match i with O => [[99]; [102]] | 1%nat => [[100]] | _ => [] end)
        (fun i => match i with 1%nat => [[100]] | _ => [] end) [98] [103] false
   = Done [([98], [118]); ([99], [118]); ([100], [118]); ([101], [118]); ([102], [118])].
+Proof. vm_compute. reflexivity. Qed.
+
+(* the former F08b witness, now a regression example: all of a..h in descending order *)
+Example ex_reverse_unbounded_three_regions :
+  scan 12 256 false 10 w_truth (fun _ => w_layout) (fun _ => []) [] [] true
+  = Done [([104], [118]); ([103], [118]); ([102], [118]); ([101], [118]); ([100], [118]); ([99], [118]); ([98], [118]); ([97], [118])].
 Proof. vm_compute. reflexivity. Qed.
 
 Example ex_reverse_bounded :
